@@ -102,6 +102,42 @@ deriving DecidableEq, Repr
 		}
 		fmt.Fprintf(&b, "  ])%s\n", sep)
 	}
+	b.WriteString("]\n\n")
+	// the index store: the argument of db.SetMaxOpenConns in every build variant of the SQLite
+	// persister (0 = the call is absent)
+	b.WriteString("/-- internal/persisters: (file, n) for `db.SetMaxOpenConns(n)`; 0 when the call is absent -/\ndef sqliteMaxOpenConns : List (List Nat × Nat) := [")
+	pfiles, _ := filepath.Glob(filepath.Join(repo, "internal/persisters/*.go"))
+	firstP := true
+	for _, pf := range pfiles {
+		if strings.HasSuffix(pf, "_test.go") {
+			continue
+		}
+		f := parse(pf)
+		n := 0
+		opens := false
+		ast.Inspect(f, func(c ast.Node) bool {
+			if call, ok := c.(*ast.CallExpr); ok {
+				switch exprText(call.Fun) {
+				case "db.SetMaxOpenConns":
+					if len(call.Args) == 1 {
+						fmt.Sscan(exprText(call.Args[0]), &n)
+					}
+				case "sql.Open":
+					opens = true
+				}
+			}
+			return true
+		})
+		if !opens {
+			continue
+		}
+		if !firstP {
+			b.WriteString(", ")
+		}
+		firstP = false
+		rel, _ := filepath.Rel(repo, pf)
+		fmt.Fprintf(&b, "(%s /- %s -/, %d)", leanStr(rel), rel, n)
+	}
 	b.WriteString("]\n\nend Stfs.Gen\n")
 	return b.String()
 }
